@@ -262,6 +262,12 @@ pub mod slots {
 
     /// INV after a call, as tagged assertions (DESIGN.md §3.4); `sc` = scan(m, witness).
     pub fn post_inv<K: Eq + Hash, V: Copy>(m: &HashMap<K, V, S>, sc: &Scan<V>) {
+        post_inv_multi(m, sc);
+        assert!(acct::live() <= 2, "[C03] more than two backing tables are alive");
+    }
+
+    /// INV for harnesses holding several maps (no global live-table bound)
+    pub fn post_inv_multi<K: Eq + Hash, V: Copy>(m: &HashMap<K, V, S>, sc: &Scan<V>) {
         let (main, old) = m.verif_parts();
         let r = HashMap::<K, V, S>::VERIF_R;
         assert!(main.len() == sc.nfull_main, "[C05] I1: main table's item count differs from its number of full buckets");
@@ -280,13 +286,14 @@ pub mod slots {
         assert!(m.capacity() >= m.len(), "[C04] capacity() < len()");
         assert!(sc.count <= 1, "[C01] I3: a key is stored twice");
         assert!(sc.hash_ok, "[C01] I6: an element is stored under a hash that is not its key's hash for the map's hasher (lookups miss it)");
-        assert!(acct::live() <= 2, "[C03] more than two backing tables are alive");
     }
 
-    /// C03's reclamation clause for calls that must free an emptied old table.
-    pub fn post_freed_if_empty<K, V>(m: &HashMap<K, V, S>) {
+    /// C03's reclamation clause for calls that must free an old table *they* emptied (`l0` =
+    /// leftovers before the call; an old table that was already empty may stay until the next
+    /// key-adding call, clear or drain).
+    pub fn post_freed_if_empty<K, V>(m: &HashMap<K, V, S>, l0: usize) {
         if let Some((ot, _)) = m.verif_parts().1 {
-            assert!(ot.len() != 0, "[C03] the old table is empty but was not released by this call");
+            assert!(ot.len() != 0 || l0 == 0, "[C03] this call emptied the old table but did not release it");
         }
     }
 }
